@@ -469,7 +469,12 @@ pub fn arb_ty(depth: u32) -> impl Strategy<Value = Ty> + Clone + use<> {
     })
 }
 
-pub const STR_POOL: [&str; 12] = ["ab", "", "x y", "1", "true", "a\nb", "- k", "k: v", "null", "line\n", "q", "two\nlines\n"];
+// (the last two: multi-line text whose first line starts with a blank - a block scalar needs an
+// indentation indicator for it - short and longer than the default folding width)
+pub const STR_POOL: [&str; 14] = [
+    "ab", "", "x y", "1", "true", "a\nb", "- k", "k: v", "null", "line\n", "q", "two\nlines\n", " lead\nsecond\n",
+    " word word word word word word word word word word word word word word word word word w\nnext line\n",
+];
 
 /// Key nodes are compared by structure, scalar text and tag - not by style: `null`, `~`, an
 /// empty scalar and the strings "null" / "~" / "" are one key, at any depth of a composite key.
